@@ -128,7 +128,7 @@ SYNTAX_SOURCES = {
     'syntax-return-outside': 'return 5\n',
     'syntax-empty-expression': 'x = \n',
 }
-POSITIONS = ['top', 'function', 'depth5', 'depth30', 'method', 'comprehension', 'generator', 'finally', 'imported']
+POSITIONS = ['top', 'function', 'depth5', 'depth30', 'method', 'comprehension', 'generator', 'finally', 'imported', 'imported-toplevel']
 ENTRIES = ['run', 'call', 'evaluate']
 TRACERS = ['none', 'native', 'calls', 'coverage']
 
@@ -175,6 +175,11 @@ def build_program(source_id, position, prefix=''):
         files['helper.py'] = helper
         lines = []
         wrap_def = ['import helper', 'def target():', '    return helper.boom()']
+    elif position == 'imported-toplevel':
+        # the failure happens while the second file is being imported (with threaded=True: in a thread of its own)
+        files['helper.py'] = '\n'.join(list(setup) + [raising, 'loaded = True']) + '\n'
+        lines = []
+        wrap_def = ['def target():', '    import helper', '    return 1']
     main_lines = ([prefix.rstrip('\n')] if prefix else []) + lines + wrap_def
     main_for_run = '\n'.join(main_lines + ['target()']) + '\n'
     main_for_call = '\n'.join(main_lines) + '\n'
